@@ -121,6 +121,8 @@ def lie_files():
         "DPb": lambda: (SO3Quat * R3) * SO2,        # left-nested: __mul__ flattens
         "DPc": lambda: SE2 * (SO2 * R2),            # right-nested
         "DPd": lambda: SO3Dcm * R2,                 # with a DCM factor
+        "DPe": lambda: SO3Quat * SO3Mrp,            # the same non-abelian algebra twice, group/algebra sizes differ in the first factor
+        "DPf": lambda: SE2 * SE2,                   # a repeated factor
     }
     U = []
     for nm, mk in dps.items():
